@@ -72,6 +72,12 @@ replayed as regression cases on every run):
          of realpath probes like the code; C08_invalidate_only_if_replaced states the realpath rule.  Path-map
          entries are otherwise independent files, exact as long as nothing writes in place (which the frame
          theorems prove for the plan and the trace equality checks for the code).
+Every call the module makes into os / os.path / shutil / tempfile goes through a proxy of the WHOLE namespace: the
+modelled calls are logged by kind; any other callable (os.chmod, os.stat, shutil.move ...; pure helpers such as
+os.path.join excepted) is logged as an unmodelled effect (breaks the trace equality), is a kill point, and is
+failed by NAME with EPERM - so an exception surfacing after the rename has committed is seen by the oracle.
+Scenarios where the caller holds a live numpy view of a (destination-backed) tensor: release() raises
+BufferError (model: AReleaseHeld / sc_held; it happens before the rename, so the save fails cleanly).
 Interruptions injected by the generator: os.replace is additionally failed with PermissionError (EACCES,
 EPERM), once and persistently (every retry fails too); after every injected fault every later effect - the
 effects that only exist on error paths - is also a kill point (ctl with both crash_at and fault_at), and the
@@ -109,6 +115,11 @@ Mutants tried (scratch worktree /tmp/wt-C08, VERIF_REPO), all reported VIOLATION
                                                             destination and retries) -> oracle replays (persistent EACCES:
                                                             destination gone after the failed save; fault then kill between
                                                             unlink and retry); r2m3 -> oracle replay
+  seeded C08-r3m1 (revert of the realpath rule) -> oracle replay; r3m2 (mode copied by os.chmod AFTER os.replace) ->
+                                                            oracle replay (EPERM injected into os.chmod by name: the save
+                                                            raises, destination already new); r3m3 (release after the rename
+                                                            on POSIX) -> oracle replay (live numpy view: BufferError after the
+                                                            destination was replaced)
 Unchanged tree: quiet for VERIF_SEED 0..4 (two `fixed:` lines).
 """
 
@@ -272,21 +283,22 @@ def scenario_terms(scn: dict, root: str, tok: Tok, tag: str):
     names = S.initial_names(root)
     canon = S.Canon(root, names)
     fs0 = S.observe(root, canon)
-    tens, small, handle_of = [], [], {}
+    tens, small, held, handle_of = [], [], [], {}
     for i, t in enumerate(scn["tensors"]):
         if t["kind"] in ("ext", "small"):
             h = len(tens)
             handle_of[i] = h
             m = None
-            if t.get("preload") and "\0" not in t["file"]:
+            if (t.get("preload") or t.get("hold")) and "\0" not in t["file"]:
                 with open(os.path.join(root, t["file"]), "rb") as f:
                     m = f.read()
             tens.append("{| t_path := %s; t_off := %s; t_len := %s; t_valid := true; t_map := %s |}" % (
                 tok(canon.comps(t["file"])), cnat(t["off"]), cnat(t["len"]), copt(m, c_bytes)))
             if t["len"] <= scn["threshold"]:
                 small.append(h)
-    for t in b.ext:
-        t.release()
+            elif t.get("hold"):
+                held.append(h)
+    S.cleanup(b)
     scs = []
     base = 0
     for req, items in layout(scn, root):
@@ -323,9 +335,9 @@ def scenario_terms(scn: dict, root: str, tok: Tok, tag: str):
         aliases = [tok(canon.comps(name)) for name, spec in scn["files"].items()
                    if spec["kind"] == "hardlink" and os.path.normpath(spec["target"]) == destrel]
         scs.append("{| sc_req := %s; sc_tmpd := %s; sc_tensors := %s; sc_chunk := %s; sc_cb := %s; sc_cbbase := %s; "
-                   "sc_aliases := %s |}" % (
+                   "sc_aliases := %s; sc_held := %s |}" % (
                        tok(canon.comps(req)), tok(tmpd), clist(tl), cnat(min(scn.get("chunk") or 4000, 4000)), cbt,
-                       cnat(base), clist(aliases)))
+                       cnat(base), clist(aliases), clist(cnat(h) for h in held)))
         base += len(items)
     text = (f"Definition fs_{tag} : fsT := {c_fs(fs0, tok)}.\n"
             f"Definition tens_{tag} : list tstate := {clist(tens)}.\n"
@@ -337,7 +349,7 @@ def scenario_terms(scn: dict, root: str, tok: Tok, tag: str):
 def run_term(scn: dict, tag: str, crash, fault) -> str:
     c = f"(mk {copt(crash, cnat)} {copt(fault, cnat)})"
     if scn.get("max_shard") is None:
-        return f"(run {c} fs_{tag} tens_{tag} small_{tag} (hd (Build_scn [] [] [] 0 None 0 []) scs_{tag}))"
+        return f"(run {c} fs_{tag} tens_{tag} small_{tag} (hd (Build_scn [] [] [] 0 None 0 [] []) scs_{tag}))"
     return f"(run_sharded {c} fs_{tag} tens_{tag} small_{tag} scs_{tag})"
 
 
@@ -521,6 +533,11 @@ def gen_scenario(rng, sharded: bool = False) -> dict:
                     tensors.insert(rng.randrange(len(tensors) + 1),
                                    {"kind": "ext", "file": fn, "abs": True, "off": rng.randrange(0, len(old) - ln + 1),
                                     "len": ln, "preload": rng.random() < 0.5})
+    for t in tensors:
+        # the caller keeps a live numpy view of some (large) external tensors: release() raises BufferError
+        if t["kind"] == "ext" and t["len"] > thr and "\0" not in t["file"] and t["file"] not in ("nothere.bin",) \
+                and not (t["file"] == "src.bin" and t["off"] + t["len"] > 30) and rng.random() < 0.2:
+            t["hold"] = True
     nbig = sum(1 for t in tensors if tensor_nbytes(t) > thr)
     cb = rng.choice([None, None, "ok", "ok"] + ([{"at": rng.randrange(nbig), "exc": gen_exc(rng)}] * 2 if nbig else []))
     scn = {"files": files, "dirs": dirs, "req": req, "threshold": thr, "chunk": rng.choice([1, 3, 5, 8, 64]),
@@ -568,8 +585,7 @@ def exercise(ck, scn: dict, tag: str, root: str, kills: bool = True, faults: boo
     b = S.build(scn, root)
     before = snapshot(root)
     tens_before = S.tensor_obs(b)
-    for t in b.ext:
-        t.release()
+    S.cleanup(b)
     b, ctl, outcome = S.run_save(scn, root)
     before = b.before
     after = snapshot(root)
@@ -602,7 +618,7 @@ def exercise(ck, scn: dict, tag: str, root: str, kills: bool = True, faults: boo
         import errno as _e
         for k in range(n):
             kind = kinds_at(ctl, k)
-            if kind not in S.FAULTABLE:
+            if not S.faultable(kind):
                 continue
             variants = [(None, False)]
             if kind == "replace":
@@ -625,8 +641,7 @@ def exercise(ck, scn: dict, tag: str, root: str, kills: bool = True, faults: boo
                     f"agree_full {run_term(scn, tag, None, k)} {c_sig(out2)} {clist(c_ob(e, tok) for e in log2)} "
                     f"{c_fs(S.observe(root, canon), tok)} {c_tobs(S.tensor_obs(b2))}",
                     dict(desc, impl_log=[list(map(str, e)) for e in log2], impl_outcome=c_sig(out2))))
-                for t in b2.ext:
-                    t.release()
+                S.cleanup(b2)
                 if persistent or (err is None and kind == "replace"):
                     continue
                 # fault at k, then death before effect j (j ranges over everything that runs after the fault)
@@ -662,8 +677,7 @@ def exercise(ck, scn: dict, tag: str, root: str, kills: bool = True, faults: boo
             sr.checks.append((
                 f"agree_fs {run_term(scn, tag, k, None)} {sig} {c_fs(S.observe(root, canon), tok)}",
                 {"scenario": scn, "mode": "kill", "index": k}))
-    for t in b.ext:
-        t.release()
+    S.cleanup(b)
     sr.text = text
     return sr
 
@@ -671,6 +685,8 @@ def exercise(ck, scn: dict, tag: str, root: str, kills: bool = True, faults: boo
 def kinds_at(ctl, k: int) -> str:
     """Kind of the k-th counted effect of the reference run (log entries are appended one per effect)."""
     e = ctl.log[k][0]
+    if e == "unmodelled":
+        return ctl.log[k][1]
     return {"islink": "islink", "realpath": "realpath", "samefile": "samefile", "exists": "exists",
             "release": "release", "invalidate": "invalidate", "callback": "callback", "seek": "seek"}.get(e, e)
 
@@ -711,8 +727,7 @@ def exercise_parallel(ck, scn: dict, root: str) -> list[dict]:
     b = S.build(scn, root)
     before = snapshot(root)
     tens_before = S.tensor_obs(b)
-    for t in b.ext:
-        t.release()
+    S.cleanup(b)
     b, ctl, outcome = S.run_save(scn, root)
     after = snapshot(root)
     n = ctl.n
@@ -740,8 +755,7 @@ def exercise_parallel(ck, scn: dict, root: str) -> list[dict]:
                      tens_before, b2)
         if bad:
             fails.append({"scenario": scn, "mode": "fault", "index": k, "failures": bad})
-        for t in b2.ext:
-            t.release()
+        S.cleanup(b2)
     return fails
 
 
@@ -893,8 +907,7 @@ def replay_case(scn: dict, mode: str, index, root: str, errno=None, persistent=F
     b = S.build(scn, root)
     before = snapshot(root)
     tens_before = S.tensor_obs(b)
-    for t in b.ext:
-        t.release()
+    S.cleanup(b)
     b, ctl, outcome = S.run_save(scn, root)
     after = snapshot(root)
     new_bytes = {p: e[1] for p, e in after.items() if e[0] == "file"} if outcome[0] == "ok" else None
